@@ -64,6 +64,8 @@ type AssertRec struct {
 	Result smt.Result
 	Model  map[string]smt.ModelVal
 	Draws  []string
+	// candidate data races behind a Race2 obligation (confirmed natively under the race detector)
+	Races []RaceConflict
 }
 
 type ReachRec struct {
@@ -87,6 +89,10 @@ type Path struct {
 	HTrace    []string // harness-visible event trace: draws, asserts, reaches, effects
 	Steps     int
 	altsFound [][]int
+	// Race2 bookkeeping: the handler this path ran (1 or 2), its recorded accesses and the obligation label
+	RaceRegion int
+	RaceLabel  string
+	RaceAcc    []RaceAccess
 }
 
 // siteKey: unwinding is counted per instruction site and per function activation (a loop re-visits
@@ -188,6 +194,9 @@ type Machine struct {
 	// stats across paths
 	UnknownBranches int
 	GoLogical       bool
+	race            raceState
+	regionTag       string          // prefix of symbols drawn by the second handler of a Race2
+	curSite         ssa.Instruction // call site of the intrinsic being executed
 	HavocCalls      map[string]int
 	FuncsSeen       map[*ssa.Function]bool
 }
@@ -230,6 +239,8 @@ func (m *Machine) reset(prefix []int) {
 	m.stack = nil
 	m.GoInline = false
 	m.GoLogical = false
+	m.race = raceState{}
+	m.regionTag = ""
 	m.curUnwind = m.Unwind
 }
 
@@ -381,6 +392,7 @@ func (m *Machine) runOne(fn *ssa.Function, prefix []int) (res *Path) {
 		res.HTrace = m.htrace
 		res.Steps = m.steps
 		res.altsFound = m.alts
+		res.RaceRegion, res.RaceLabel, res.RaceAcc = m.race.region, m.race.label, m.race.acc
 	}()
 	ret := m.callFunction(fn, nil, nil, nil)
 	res.Outcome = "return"
@@ -557,6 +569,7 @@ func (m *Machine) assume(c *smt.Term) {
 
 // Fresh makes a named symbolic value; repeated names get #k suffixes.
 func (m *Machine) freshName(name string) string {
+	name = m.regionTag + name
 	k := m.freshCnt[name]
 	m.freshCnt[name] = k + 1
 	if k > 0 {
@@ -590,6 +603,7 @@ func (m *Machine) callFunction(fn *ssa.Function, args []Value, bind []Value, sit
 		return m.callValue(ov, args, site)
 	}
 	if in := lookupIntrinsic(fn); in != nil {
+		m.curSite = site
 		return in(m, fn, args)
 	}
 	if !m.P.shouldExec(fn) {
@@ -797,6 +811,7 @@ func (m *Machine) globalCell(g *ssa.Global) *Cell {
 					if _, done := m.globals[gg]; !done {
 						et := gg.Type().(*types.Pointer).Elem()
 						m.globals[gg] = m.newCell(Zero(et), et, gg.String())
+						m.globals[gg].Global = true
 					}
 				}
 			}
@@ -822,6 +837,7 @@ func (m *Machine) globalCell(g *ssa.Global) *Cell {
 		v = m.FreshValue(elem, "global."+g.String(), 1)
 	}
 	c := m.newCell(v, elem, g.String())
+	c.Global = true
 	m.globals[g] = c
 	return c
 }
@@ -838,6 +854,9 @@ func (m *Machine) exec(fr *frame, ins ssa.Instruction) {
 		p := m.get(fr, ins.Addr).(*Ptr)
 		if p == nil {
 			m.end("panic", "nil pointer dereference (store) at "+m.P.Fset.Position(ins.Pos()).String())
+		}
+		if m.race.on {
+			m.raceRecord(p, true, ins, ins.Addr)
 		}
 		p.store(m.get(fr, ins.Val))
 	case *ssa.UnOp:
@@ -863,8 +882,12 @@ func (m *Machine) exec(fr *frame, ins ssa.Instruction) {
 		if mv.M == nil {
 			m.end("panic", "assignment to entry in nil map")
 		}
+		if m.race.on {
+			m.raceRecordMap(mv.M, true, ins, ins.Map)
+		}
 		m.mapStore(mv.M, m.get(fr, ins.Key), m.get(fr, ins.Value), ins.Key.Type(), ins)
 	case *ssa.MakeMap:
+		m.cellID++
 		m.cellID++
 		fr.regs[ins] = &MapV{M: &MapObj{ID: m.cellID}}
 	case *ssa.MakeSlice:
@@ -967,6 +990,9 @@ func (m *Machine) unop(fr *frame, ins *ssa.UnOp) Value {
 		p := x.(*Ptr)
 		if p == nil {
 			m.end("panic", "nil pointer dereference (load) at "+m.P.Fset.Position(ins.Pos()).String())
+		}
+		if m.race.on {
+			m.raceRecord(p, false, ins, ins.X)
 		}
 		return p.load()
 	case token.NOT:
@@ -1578,6 +1604,9 @@ func (m *Machine) lookup(fr *frame, ins *ssa.Lookup) Value {
 		return m.strIndex(s, m.get(fr, ins.Index).(*smt.Term), ins)
 	}
 	mv := x.(*MapV)
+	if m.race.on && mv.M != nil {
+		m.raceRecordMap(mv.M, false, ins, ins.X)
+	}
 	vt := under(ins.X.Type()).(*types.Map).Elem()
 	key := m.get(fr, ins.Index)
 	var v Value
@@ -1783,6 +1812,9 @@ func (m *Machine) rangeInit(fr *frame, ins *ssa.Range) Value {
 	switch x := m.get(fr, ins.X).(type) {
 	case *MapV:
 		it := &mapIter{}
+		if m.race.on && x.M != nil {
+			m.raceRecordMap(x.M, false, ins, ins.X)
+		}
 		if x.M != nil {
 			it.keys = append([]Value(nil), x.M.Keys...)
 			it.vals = append([]Value(nil), x.M.Vals...)
@@ -1917,6 +1949,9 @@ func (m *Machine) builtin(b *ssa.Builtin, args []Value, call *ssa.CallCommon, si
 	case "delete":
 		mv := args[0].(*MapV)
 		if mv.M != nil {
+			if m.race.on && site != nil {
+				m.raceRecordMap(mv.M, true, site, call.Args[0])
+			}
 			m.mapDelete(mv.M, args[1], call.Args[1].Type(), site)
 		}
 		return nil
@@ -2101,6 +2136,9 @@ func (m *Machine) copyOp(dst, src Value) Value {
 // ---------- locks ----------
 
 func lockKey(p *Ptr) string {
+	if p.Cell.Global {
+		return fmt.Sprintf("g:%s%v", p.Cell.Name, p.Path)
+	}
 	return fmt.Sprintf("c%d%v", p.Cell.ID, p.Path)
 }
 
